@@ -17,6 +17,25 @@ pub fn strings_all() -> Vec<String> {
             }
         }
     }
+    v.extend(long_garbage());
+    v
+}
+
+/// unknown keywords of many lengths made of 1-, 2-, 3- and 4-byte characters, with and without a
+/// one-byte lead, so that any fixed byte or char offset (8, 16, 24, 32, 64, 100 ...) falls both on
+/// and inside a character for some member
+pub fn long_garbage() -> Vec<String> {
+    let mut v = vec![];
+    for unit in ["z", "é", "甲", "😀"] {
+        for lead in ["", "x"] {
+            for k in [1usize, 2, 3, 4, 5, 6, 7, 8, 9, 10, 11, 12, 13, 16, 17, 21, 22, 25, 26, 32, 33, 34, 43, 44, 64, 65, 100, 101] {
+                if unit == "z" && ![8, 9, 16, 17, 32, 33, 64, 65, 100, 101].contains(&k) {
+                    continue;
+                }
+                v.push(format!("{lead}{}", unit.repeat(k)));
+            }
+        }
+    }
     v
 }
 
@@ -135,7 +154,23 @@ pub fn sentences() -> Vec<LN> {
             }
         }
     }
-    let stamps = stamp_strings();
+    let mut stamps = stamp_strings();
+    // long unknown strings (and long digit runs) in the punctuation, stamp and number slots
+    let garbage = long_garbage();
+    for g in garbage.iter().step_by(3) {
+        puncts.push(g.clone());
+        stamps.push(g.clone());
+        stamps.push(format!(":!{g}:"));
+        out.push(LN::Sentence(LS { term: terms[0].clone(), punctuation: ".".into(), stamp: "".into(), truth: vec![g.clone()] }));
+        out.push(LN::Task(LT { budget: vec!["0.5".into(), g.clone()], sentence: LS { term: terms[0].clone(), punctuation: ".".into(), stamp: "".into(), truth: vec!["1".into(), g.clone()] } }));
+    }
+    for d in crate::lexu::digit_strings() {
+        for sign in ["", "+", "-"] {
+            stamps.push(format!(":!{sign}{d}:"));
+            stamps.push(format!("t={sign}{d}"));
+            stamps.push(format!("发生在{sign}{d}"));
+        }
+    }
     let num_lists = lists(&nums, 2);
     let to_s = |l: &Vec<&str>| l.iter().map(|s| s.to_string()).collect::<Vec<String>>();
     // full product of punctuation x stamp with short number lists
